@@ -232,9 +232,55 @@ HashCases ==
   \cup {[fn |-> "fnv.New32a", a |-> <<VBytes(b)>>, want |-> VBytes(Fnv1a(b, FnvBasis))] : b \in HashBytes}
   \cup {[fn |-> "fnv.New32", a |-> <<VBytes(b)>>, want |-> VBytes(Fnv1(b, FnvBasis))] : b \in HashBytes}
 
+
+\* ------------------------------------------------------------------ crypto/md5 (RFC 1321) on BV.tla
+Md5K == <<<<120, 164, 106, 215>>, <<86, 183, 199, 232>>, <<219, 112, 32, 36>>, <<238, 206, 189, 193>>,
+        <<175, 15, 124, 245>>, <<42, 198, 135, 71>>, <<19, 70, 48, 168>>, <<1, 149, 70, 253>>,
+        <<216, 152, 128, 105>>, <<175, 247, 68, 139>>, <<177, 91, 255, 255>>, <<190, 215, 92, 137>>,
+        <<34, 17, 144, 107>>, <<147, 113, 152, 253>>, <<142, 67, 121, 166>>, <<33, 8, 180, 73>>,
+        <<98, 37, 30, 246>>, <<64, 179, 64, 192>>, <<81, 90, 94, 38>>, <<170, 199, 182, 233>>,
+        <<93, 16, 47, 214>>, <<83, 20, 68, 2>>, <<129, 230, 161, 216>>, <<200, 251, 211, 231>>,
+        <<230, 205, 225, 33>>, <<214, 7, 55, 195>>, <<135, 13, 213, 244>>, <<237, 20, 90, 69>>,
+        <<5, 233, 227, 169>>, <<248, 163, 239, 252>>, <<217, 2, 111, 103>>, <<138, 76, 42, 141>>,
+        <<66, 57, 250, 255>>, <<129, 246, 113, 135>>, <<34, 97, 157, 109>>, <<12, 56, 229, 253>>,
+        <<68, 234, 190, 164>>, <<169, 207, 222, 75>>, <<96, 75, 187, 246>>, <<112, 188, 191, 190>>,
+        <<198, 126, 155, 40>>, <<250, 39, 161, 234>>, <<133, 48, 239, 212>>, <<5, 29, 136, 4>>,
+        <<57, 208, 212, 217>>, <<229, 153, 219, 230>>, <<248, 124, 162, 31>>, <<101, 86, 172, 196>>,
+        <<68, 34, 41, 244>>, <<151, 255, 42, 67>>, <<167, 35, 148, 171>>, <<57, 160, 147, 252>>,
+        <<195, 89, 91, 101>>, <<146, 204, 12, 143>>, <<125, 244, 239, 255>>, <<209, 93, 132, 133>>,
+        <<79, 126, 168, 111>>, <<224, 230, 44, 254>>, <<20, 67, 1, 163>>, <<161, 17, 8, 78>>,
+        <<130, 126, 83, 247>>, <<53, 242, 58, 189>>, <<187, 210, 215, 42>>, <<145, 211, 134, 235>>>>           \* floor(2^32 * |sin(i+1)|), little-endian limbs
+Md5S == <<7, 12, 17, 22, 7, 12, 17, 22, 7, 12, 17, 22, 7, 12, 17, 22, 5, 9, 14, 20, 5, 9, 14, 20, 5, 9, 14, 20, 5, 9, 14, 20, 4, 11, 16, 23, 4, 11, 16, 23, 4, 11, 16, 23, 4, 11, 16, 23, 6, 10, 15, 21, 6, 10, 15, 21, 6, 10, 15, 21, 6, 10, 15, 21>>
+Md5Init == <<<<1, 35, 69, 103>>, <<137, 171, 205, 239>>, <<254, 220, 186, 152>>, <<118, 84, 50, 16>>>>       \* A, B, C, D
+\* message + 0x80 + zeros to 56 mod 64 + the bit length as 8 little-endian bytes
+Md5Pad(m) == LET n == Len(m)
+                 z == (55 - n) % 64          \* number of zero bytes
+                 bits == n * 8
+             IN m \o <<128>> \o [i \in 1..z |-> 0] \o <<bits % 256, (bits \div 256) % 256, (bits \div 65536) % 256, 0, 0, 0, 0, 0>>
+Md5Word(blk, g) == <<blk[4 * g + 1], blk[4 * g + 2], blk[4 * g + 3], blk[4 * g + 4]>>
+Md5F(i, b, c, d) == IF i < 16 THEN BOr(BAnd(b, c), BAnd(BNot(b), d))
+                    ELSE IF i < 32 THEN BOr(BAnd(d, b), BAnd(BNot(d), c))
+                    ELSE IF i < 48 THEN BXor(BXor(b, c), d)
+                    ELSE BXor(c, BOr(b, BNot(d)))
+Md5G(i) == IF i < 16 THEN i ELSE IF i < 32 THEN (5 * i + 1) % 16 ELSE IF i < 48 THEN (3 * i + 5) % 16 ELSE (7 * i) % 16
+RECURSIVE Md5Rounds(_, _, _)
+Md5Rounds(blk, st, i) ==
+  IF i = 64 THEN st
+  ELSE LET a == st[1]  b == st[2]  c == st[3]  d == st[4]
+           f == Mat(Add(Add(Add(Mat(Md5F(i, b, c, d)), a), Md5K[i + 1]), Md5Word(blk, Md5G(i))))
+       IN Md5Rounds(blk, <<d, Mat(Add(b, Mat(Rotl(f, Md5S[i + 1])))), b, c>>, i + 1)
+RECURSIVE Md5Blocks(_, _)
+Md5Blocks(p, st) == IF p = <<>> THEN st
+                    ELSE LET r == Md5Rounds(SubSeq(p, 1, 64), st, 0)
+                         IN Md5Blocks(SubSeq(p, 65, Len(p)), <<Mat(Add(st[1], r[1])), Mat(Add(st[2], r[2])), Mat(Add(st[3], r[3])), Mat(Add(st[4], r[4]))>>)
+Md5(m) == LET st == Md5Blocks(Mat(Md5Pad(m)), Md5Init) IN st[1] \o st[2] \o st[3] \o st[4]      \* the 16 digest bytes
+\* messages around the padding boundaries (55/56/57, 63/64, 119/120): byte i is (i * 7 + 1) mod 251
+Md5Msg(n) == [i \in 1..n |-> (i * 7 + 1) % 251]
+Md5Cases == {[fn |-> "md5.Sum", a |-> <<VBytes(Mat(Md5Msg(n)))>>, want |-> VStr(HexEncode(Md5(Mat(Md5Msg(n)))))] : n \in {0, 1, 3, 54, 55, 56, 57, 63, 64, 65, 119, 120, 121, 128}}
+
 \* ------------------------------------------------------------------ driver
 CasesOf(f) == CASE f = "strings" -> StringCases [] f = "strconv" -> StrconvCases [] f = "utf8" -> Utf8Cases [] f = "codec" -> CodecCases
-                [] f = "bits" -> BitsCases [] f = "sort" -> SortCases [] f = "hash" -> HashCases
+                [] f = "bits" -> BitsCases [] f = "sort" -> SortCases [] f = "hash" -> HashCases \cup Md5Cases
 VARIABLES fam, c, done
 Init == fam \in Families /\ c \in CasesOf(fam) /\ done = FALSE
 Next == ~done /\ done' = TRUE /\ UNCHANGED <<fam, c>> /\ (Emit => PrintT(<<"T", ToJson([fam |-> fam, c |-> c])>>))
@@ -249,4 +295,6 @@ Known == /\ Index(<<"a", "b", "a">>, <<"b", "a">>) = 1 /\ Count(<<"a", "a", "a">
          /\ Crc32(<<97, 98, 99>>) = <<194, 65, 36, 53>>          \* crc32("abc") = 0x352441c2
          /\ Fnv1a(<<97>>, FnvBasis) = <<44, 41, 12, 228>>         \* fnv1a32("a") = 0xe40c292c
          /\ AdlerAB(<<97, 98, 99>>, 1, 0) = <<295, 589>>          \* adler32("abc") = 0x024d0127
+         /\ HexEncode(Md5(<<>>)) = <<"d", "4", "1", "d", "8", "c", "d", "9", "8", "f", "0", "0", "b", "2", "0", "4", "e", "9", "8", "0", "0", "9", "9", "8", "e", "c", "f", "8", "4", "2", "7", "e">>
+         /\ HexEncode(Md5(<<97, 98, 99>>)) = <<"9", "0", "0", "1", "5", "0", "9", "8", "3", "c", "d", "2", "4", "f", "b", "0", "d", "6", "9", "6", "3", "f", "7", "d", "2", "8", "e", "1", "7", "f", "7", "2">>
 =============================================================================
